@@ -16,6 +16,25 @@ type updateContext struct {
 	db          *pebble.DB
 	index       uint64
 	leaderIndex *uint64
+	// storedLeaderIndex caches the leader index persisted before this update started.
+	storedLeaderIndex *uint64
+	// replicatedUpTo is the leader index the table was at before the sequence being handled.
+	replicatedUpTo uint64
+}
+
+// currentLeaderIndex returns the leader index the table is at, including the not yet committed part of the update.
+func (c *updateContext) currentLeaderIndex() (uint64, error) {
+	if c.leaderIndex != nil {
+		return *c.leaderIndex, nil
+	}
+	if c.storedLeaderIndex == nil {
+		idx, err := readLocalIndex(c.db, sysLeaderIndex)
+		if err != nil {
+			return 0, err
+		}
+		c.storedLeaderIndex = &idx
+	}
+	return *c.storedLeaderIndex, nil
 }
 
 func (c *updateContext) EnsureIndexed() error {
@@ -67,6 +86,19 @@ func parseCommand(c *updateContext, entry sm.Entry) (command, error) {
 	}
 	// An entry without a leader index must not discard the one set by an earlier entry of the same batch.
 	if cmd.LeaderIndex != nil {
+		if cmd.Type == regattapb.Command_SEQUENCE {
+			// Leader commands the table already contains must not run again: the proposer of a replicated
+			// sequence cannot always know (an earlier proposal timed out but got committed, a stale lease),
+			// every leader command takes effect exactly once.
+			current, err := c.currentLeaderIndex()
+			if err != nil {
+				return commandDummy{}, err
+			}
+			if *cmd.LeaderIndex <= current {
+				return commandDummy{}, nil
+			}
+			c.replicatedUpTo = current
+		}
 		c.leaderIndex = cmd.LeaderIndex
 	}
 	return wrapCommand(cmd), nil
